@@ -1515,7 +1515,9 @@ PyObject* Records::read_sfile_header(void)
     // go back to the beginning
     rewind(mFptr);
 
-	char endbuff[4]={0};
+    // look for a line holding only END; the letters END can also occur
+    // inside the header text itself
+	char endbuff[6]={0};
     size_t count=0;
 
 	while (1) {
@@ -1529,19 +1531,20 @@ PyObject* Records::read_sfile_header(void)
 
         endbuff[0] = endbuff[1];
         endbuff[1] = endbuff[2];
+        endbuff[2] = endbuff[3];
+        endbuff[3] = endbuff[4];
 
-        endbuff[2] = c;
+        endbuff[4] = c;
 
-        if (0==strncmp(endbuff,"END",3)) {
+        if (0==strncmp(endbuff,"\nEND\n",5)) {
             break;
         }
     }
 
     // we need to add
-    // 1 for the newline character
     // 1 for the empty line
 
-    count += 2;
+    count += 1;
 
     string hdr;
     hdr.resize(count);
